@@ -89,6 +89,10 @@ def handle (op : String) (j : Json) : Except String Json := do
         | some d => decJ d
         | none => Json.null
     pure (reply (Json.arr (rows.map (one strToFloatRow)).toArray) (some (Json.arr (rows.map (one specFloat)).toArray)))
+  | "frepr" =>
+    -- texts produced by float_to_strings: they must have the repr shape, then the parser's logic is applied
+    let rows := (← getStrList j "rows").map toB
+    pure (reply (optDecList (rows.map reprParse)) (some (optDecList (rows.map specFloat))))
   | "fparse" =>
     let rows := (← getStrList j "rows").map toB
     pure (reply (optDecList (rows.map strToFloatRow)) (some (optDecList (rows.map specFloat))))
